@@ -79,6 +79,50 @@ Proof.
   - symmetry. apply Z.div_small; lia.
 Qed.
 
+  (* ---- scalar %= &BigUint, all 12 primitive types (the signed macro as FIXED in dc3abd4) ---- *)
+  Lemma leaf_rem_assign_spec t s u :
+    slo t <= s <= shi t -> 0 <= u -> srem_assign t s u = zsem FamU OpRem s u.
+  Proof.
+    intros Hs Hu. unfold srem_assign, umax. simpl.
+    pose proof (srange t) as R.
+    assert (Hlo : slo t = if ssigned t then - 2 ^ (sbits t - 1) else 0) by reflexivity.
+    assert (Hhi : shi t = if ssigned t then 2 ^ (sbits t - 1) - 1 else 2 ^ sbits t - 1) by reflexivity.
+    assert (Hpow : 2 ^ sbits t = 2 * 2 ^ (sbits t - 1)).
+    { replace (sbits t) with (Z.succ (sbits t - 1)) at 1 by lia. apply Z.pow_succ_r. destruct t; simpl; lia. }
+    destruct (Z.ltb_spec (2 ^ sbits t - 1) u) as [Hbig|Hfit].
+    - (* the divisor does not fit the unsigned type: |s| < u, the scalar is unchanged *)
+      destruct (Z.eqb_spec u 0); [lia|]. f_equal.
+      assert (Z.abs s < u) by (destruct (ssigned t); lia).
+      destruct (Z.ltb_spec s 0).
+      + replace s with (- Z.abs s) at 2 by lia. rewrite Z.rem_opp_l', Z.rem_small; lia.
+      + rewrite Z.rem_small; lia.
+    - destruct (Z.eqb_spec u 0) as [E|E]; [reflexivity|].
+      destruct (ssigned t) eqn:Sg.
+      + f_equal.
+        assert (Hr : 0 <= Z.abs s mod u < u) by (apply Z.mod_pos_bound; lia).
+        assert (Hr2 : Z.abs s mod u <= Z.abs s) by (apply Z.mod_le; lia).
+        assert (Hrem : Z.rem s u = if s <? 0 then - (Z.abs s mod u) else Z.abs s mod u).
+        { destruct (Z.ltb_spec s 0).
+          - replace s with (- Z.abs s) at 1 by lia. rewrite Z.rem_opp_l', Z.rem_mod_nonneg; lia.
+          - rewrite Z.abs_eq by lia. rewrite Z.rem_mod_nonneg; lia. }
+        rewrite Hrem. set (r := Z.abs s mod u) in *.
+        destruct (Z.eq_dec r (2 ^ (sbits t - 1))) as [Emin|Emin].
+        * (* only s = MIN with a divisor above 2^(N-1): r as iN = MIN, MIN.wrapping_neg() = MIN *)
+          assert (s = slo t) by lia.
+          assert (W : wrap t r = slo t).
+          { unfold wrap. rewrite Hlo, Emin.
+            replace (2 ^ (sbits t - 1) - - 2 ^ (sbits t - 1)) with (0 + 1 * 2 ^ sbits t) by lia.
+            rewrite Z.mod_add by lia. rewrite Z.mod_0_l by lia. lia. }
+          rewrite W. destruct (Z.ltb_spec s 0); [|lia].
+          unfold wrap. rewrite Hlo.
+          replace (- - 2 ^ (sbits t - 1) - - 2 ^ (sbits t - 1)) with (0 + 1 * 2 ^ sbits t) by lia.
+          rewrite Z.mod_add by lia. rewrite Z.mod_0_l by lia. lia.
+        * rewrite (wrap_id t r) by lia.
+          destruct (Z.ltb_spec s 0); [|reflexivity].
+          apply wrap_id; lia.
+      + f_equal. rewrite Z.rem_mod_nonneg; lia.
+  Qed.
+
 Section LeafSpecs.
   Variable uop : opk -> Z -> Z -> outcome Z.
   Variable uop_s : opk -> Z -> Z -> outcome Z.
@@ -287,49 +331,6 @@ Section LeafSpecs.
     rewrite !zpow_spec by assumption. apply powsign_spec; assumption.
   Qed.
 
-  (* ---- scalar %= &BigUint, all 12 primitive types (the signed macro as FIXED in dc3abd4) ---- *)
-  Lemma leaf_rem_assign_spec t s u :
-    slo t <= s <= shi t -> 0 <= u -> srem_assign t s u = zsem FamU OpRem s u.
-  Proof.
-    intros Hs Hu. unfold srem_assign, umax. simpl.
-    pose proof (srange t) as R.
-    assert (Hlo : slo t = if ssigned t then - 2 ^ (sbits t - 1) else 0) by reflexivity.
-    assert (Hhi : shi t = if ssigned t then 2 ^ (sbits t - 1) - 1 else 2 ^ sbits t - 1) by reflexivity.
-    assert (Hpow : 2 ^ sbits t = 2 * 2 ^ (sbits t - 1)).
-    { replace (sbits t) with (Z.succ (sbits t - 1)) at 1 by lia. apply Z.pow_succ_r. destruct t; simpl; lia. }
-    destruct (Z.ltb_spec (2 ^ sbits t - 1) u) as [Hbig|Hfit].
-    - (* the divisor does not fit the unsigned type: |s| < u, the scalar is unchanged *)
-      destruct (Z.eqb_spec u 0); [lia|]. f_equal.
-      assert (Z.abs s < u) by (destruct (ssigned t); lia).
-      destruct (Z.ltb_spec s 0).
-      + replace s with (- Z.abs s) at 2 by lia. rewrite Z.rem_opp_l', Z.rem_small; lia.
-      + rewrite Z.rem_small; lia.
-    - destruct (Z.eqb_spec u 0) as [E|E]; [reflexivity|].
-      destruct (ssigned t) eqn:Sg.
-      + f_equal.
-        assert (Hr : 0 <= Z.abs s mod u < u) by (apply Z.mod_pos_bound; lia).
-        assert (Hr2 : Z.abs s mod u <= Z.abs s) by (apply Z.mod_le; lia).
-        assert (Hrem : Z.rem s u = if s <? 0 then - (Z.abs s mod u) else Z.abs s mod u).
-        { destruct (Z.ltb_spec s 0).
-          - replace s with (- Z.abs s) at 1 by lia. rewrite Z.rem_opp_l', Z.rem_mod_nonneg; lia.
-          - rewrite Z.abs_eq by lia. rewrite Z.rem_mod_nonneg; lia. }
-        rewrite Hrem. set (r := Z.abs s mod u) in *.
-        destruct (Z.eq_dec r (2 ^ (sbits t - 1))) as [Emin|Emin].
-        * (* only s = MIN with a divisor above 2^(N-1): r as iN = MIN, MIN.wrapping_neg() = MIN *)
-          assert (s = slo t) by lia.
-          assert (W : wrap t r = slo t).
-          { unfold wrap. rewrite Hlo, Emin.
-            replace (2 ^ (sbits t - 1) - - 2 ^ (sbits t - 1)) with (0 + 1 * 2 ^ sbits t) by lia.
-            rewrite Z.mod_add by lia. rewrite Z.mod_0_l by lia. lia. }
-          rewrite W. destruct (Z.ltb_spec s 0); [|lia].
-          unfold wrap. rewrite Hlo.
-          replace (- - 2 ^ (sbits t - 1) - - 2 ^ (sbits t - 1)) with (0 + 1 * 2 ^ sbits t) by lia.
-          rewrite Z.mod_add by lia. rewrite Z.mod_0_l by lia. lia.
-        * rewrite (wrap_id t r) by lia.
-          destruct (Z.ltb_spec s 0); [|reflexivity].
-          apply wrap_id; lia.
-      + f_equal. rewrite Z.rem_mod_nonneg; lia.
-  Qed.
 
   Lemma unsigned_lo s : ssigned s = false -> slo s = 0.
   Proof. unfold slo; intros ->; reflexivity. Qed.
